@@ -6,7 +6,7 @@
 cd "$(dirname "$0")/.."
 declare -A CH=( [A]="C03 C08 C10 C19 C20" [B]="C07 C13 C14 C15 C17 C16" [C]="C01 C04 C06 C09 C11 C12 C16 C18" [D]="C02 C05 C20 C03 C08"
                  [E]="C01 C02 C03 C04 C05 C06 C07 C08 C09 C10 C11 C12 C13 C14 C15 C16 C17 C18 C19 C20" [F]="C01 C02 C03 C04 C05 C06 C07 C08 C09 C10 C11 C12 C13 C14 C15 C16 C17 C18 C19 C20" [G]="C01 C02 C03 C04 C05 C06 C07 C08 C09 C10 C11 C12 C13 C14 C15 C16 C17 C18 C19 C20"
-                 [H]="C01 C02 C03 C04 C05 C06 C07 C08 C09 C10 C11 C12 C13 C14 C15 C16 C17 C18 C19 C20" [I]="C01 C02 C03 C04 C05 C06 C07 C08 C09 C10 C11 C12 C13 C14 C15 C16 C17 C18 C19 C20" [J]="C01 C02 C03 C04 C05 C06 C07 C08 C09 C10 C11 C12 C13 C14 C15 C16 C17 C18 C19 C20" )
+                 [H]="C01 C02 C03 C04 C05 C06 C07 C08 C09 C10 C11 C12 C13 C14 C15 C16 C17 C18 C19 C20" [I]="C01 C02 C03 C04 C05 C06 C07 C08 C09 C10 C11 C12 C13 C14 C15 C16 C17 C18 C19 C20" [K]="C16 C09 C19 C10 C03 C02" [J]="C01 C02 C03 C04 C05 C06 C07 C08 C09 C10 C11 C12 C13 C14 C15 C16 C17 C18 C19 C20" )
 T="${TMPDIR:-/tmp}"
 ids="$@"; [ -z "$ids" ] && ids=$(ls neutral | grep -v RESULTS)
 out=neutral/RESULTS.txt; [ -z "$1" ] && : > $out
